@@ -1,8 +1,10 @@
 /-
 C04 — the streaming iterator on a complete file. Property theorems only.
 
-For every lookup `L` between the specification's eager `matchCode` and any prefix-safe lazier one
-(`Op.LazyOf L`; the model of the real 6-bit-stride table is one such), every `gb`, every data type
+For every lookup `L` with `Op.WeakLazyOf L` (sound w.r.t. the specification's eager `matchCode`,
+failing only with `insufficient`, answering as soon as `lookahead` bits follow the code; NOT
+assumed monotone in the available data — the model of the real 6-bit-stride table is not), every
+`gb`, every data type
 and every well-formed file `f`, with the whole file `encodeFile gb d f` written to a fresh
 decompressor, `Iterator::next` (model: `Op.next`, iterated by `Op.drainIter`) with batch limit
 `limit ≥ 1` yields exactly
@@ -43,7 +45,7 @@ theorem inv_init (h : f.WF gb d) :
 /-- C04: on a complete well-formed file the iterator yields exactly `expectedItems`, for every
 batch limit `≥ 1`, every fuel larger than the number of items, and every admissible lookup `L`;
 no error; the final state is terminated and has no unread bits -/
-theorem iter_items (L : Matcher) (hL : LazyOf L) (h : f.WF gb d) (limit : Nat) (hlim : 1 ≤ limit)
+theorem iter_items (L : Matcher) (hL : WeakLazyOf L) (h : f.WF gb d) (limit : Nat) (hlim : 1 ≤ limit)
     (fuel : Nat) (hfuel : (expectedItems d f limit).length < fuel) :
     ∃ σ', Op.drainIter L gb d limit fuel (Op.write St.init (encodeFile gb d f)) []
         = (expectedItems d f limit, none, σ') ∧ σ'.terminated = true ∧ σ'.rest = [] := by
@@ -53,6 +55,13 @@ theorem iter_items (L : Matcher) (hL : LazyOf L) (h : f.WF gb d) (limit : Nat) (
   refine ⟨σ', ?_, hdone.1, ?_⟩
   · rw [hd, expectedItems_eq]; rfl
   · simpa using hdone.2
+
+/-- `iter_items` for the stronger hypothesis `LazyOf` -/
+theorem iter_items_of_lazyOf (L : Matcher) (hL : LazyOf L) (h : f.WF gb d) (limit : Nat) (hlim : 1 ≤ limit)
+    (fuel : Nat) (hfuel : (expectedItems d f limit).length < fuel) :
+    ∃ σ', Op.drainIter L gb d limit fuel (Op.write St.init (encodeFile gb d f)) []
+        = (expectedItems d f limit, none, σ') ∧ σ'.terminated = true ∧ σ'.rest = [] :=
+  iter_items L hL.weak h limit hlim fuel hfuel
 
 /-- C04: after the footer the iterator yields `none` and does not change the state -/
 theorem after_footer_none (L : Matcher) (gb : Nat → Nat) (d : DType) (limit : Nat) (σ' : St)
